@@ -145,3 +145,16 @@ CLAIMS["C02"] = {
     "note": "Assumes C01.R1 (disjoint frames) and C15.R3 (gaussian: one model per outstanding group), which have their own checks; "
             "pandas ordering semantics as documented (groupby sort=True, outer merge sorts keys).",
 }
+
+CLAIMS["C03"] = {
+    "technique": "term matching of the five floor sites against round(maximum(x, counted votes of the same nonreporting rows)); frame "
+                 "algebra for the gaussian aggregate bounds; column-assignment provenance in the results handler",
+    "level": "Decides for all inputs (incl. partial counts above the modelled value, negative corrections, gaussian bounds below "
+             "the partial counts): unit prediction and both unit bounds of both conformal estimators are floored at the unit's "
+             "counted votes and rounded; gaussian aggregate bounds are max(modelled bound, S_N(results)) + S_R + S_U(results), "
+             "filled before adding, rounded, and equal the counted votes when nothing is outstanding; reporting and unexpected "
+             "units copy results into prediction and every level's bounds (and results_weights into pred_turnout). Each of the "
+             "five sites can be broken without changing a pinned test number.",
+    "note": "Not decided: finiteness of modelled values (NaN from degenerate calibration sets) - numeric. Aggregate floor for the "
+            "nonparametric estimator follows from R2 + C02.R2 (lemma, not a separate rule).",
+}
